@@ -211,6 +211,13 @@ class DescriptorTransaction(_TransactionBase):
         if key in updates_dict:
             msg = f'State {key} already in updated set!'
             raise ValueError(msg)
+        if state_container.is_context_state:
+            existing = self._mdib.context_states.handle.get_one(key, allow_none=True)
+        else:
+            existing = self._mdib.states.descriptor_handle.get_one(key, allow_none=True)
+        if existing is not None:
+            msg = f'State {key} already exists in mdib!'
+            raise ValueError(msg)
 
         # set reference to descriptor
         state_container.descriptor_container = self.descriptor_updates[state_container.DescriptorHandle].new
